@@ -7,7 +7,9 @@
                                     embed_type / embed_line (and _plain) = the implementation tree the text must be
                                     read as, abs = reading an implementation tree back as a documented type;
                 Model/AnnParser.v   ann_parse_line (ParserLine), parse_type (parserOneType + rest-of-line comment),
-                                    parse_fragment (ParseCommentFragment);  Model/AnnPrint.v  type_convert_str. *)
+                                    parse_fragment (ParseCommentFragment);  Model/AnnPrint.v  type_convert_str;
+                Model/AnnAst.v      ann_fixes / deployed: which repairs are in the code (the models are
+                                    parametrised by them; parse_fragment and type_convert_str are the code as it is). *)
 From Coq Require Import String List NArith Bool.
 From LH Require Import Base.Bytes Base.Res Model.AnnLexer Model.AnnAst Model.AnnParser Model.AnnPrint Spec.AnnGrammar
   Proofs.AnnLexFacts Proofs.AnnTotal Proofs.AnnRoundtrip Proofs.AnnStat Proofs.AnnPlain Proofs.AnnFragment
@@ -109,51 +111,63 @@ Example C16_plain_differs :
 Proof. repeat split; vm_compute; reflexivity. Qed.
 
 (* ================================================================== fragments: line isolation *)
+(* The code as it is (`parse_fragment`, `frag_loop_fx`) keeps lastAliasState: a continuation line ("-| 'x'") is
+   appended to the alias of the line directly above it only (repaired; `parse_fragment_gen false` / `frag_loop` is
+   the loop before the repair, which appended it to the last statement read so far). *)
 
-(* a block of lines whose continuation lines ("-| ...") all follow a statement of the block contributes the same
-   statements, lines and errors whatever was read before it *)
+(* whatever was read before, a block of lines contributes the same statements, lines and errors -- every block,
+   no condition on its continuation lines (repaired) *)
 Theorem C16_isolation_general :
-  forall ls fr frx, safe_from frx ls = true ->
-    frag_loop (frag_app fr frx) ls = do r <- frag_loop frx ls; Ok (frag_app fr r).
-Proof. exact isolation_general. Qed.
+  forall ls fr,
+    frag_loop_fx (fr, false) ls = do r <- frag_loop_fx (frag_empty, false) ls; Ok (frag_app fr (fst r), snd r).
+Proof. exact isolation_fx_empty. Qed.
 Print Assumptions C16_isolation_general.
 
+(* the same from any state of the loop in which lastAliasState, when set, is the last statement (its invariant) *)
+Theorem C16_isolation_invariant :
+  forall ls fr frx b, fx_inv (frx, b) ->
+    frag_loop_fx (frag_app fr frx, b) ls = do r <- frag_loop_fx (frx, b) ls; Ok (frag_app fr (fst r), snd r).
+Proof. exact isolation_fx. Qed.
+Print Assumptions C16_isolation_invariant.
+
 (* a malformed line yields its own error and nothing else: the statements / lines of the neighbours are the ones
-   they have without it, the errors are theirs plus the one of the malformed line, in order *)
+   they have without it, the errors are theirs plus the one of the malformed line, in order -- whatever the
+   neighbours are (repaired: the lines after it may start with continuation lines) *)
 Theorem C16_line_isolation :
   forall ls1 bad ls2 p1 p2 e,
     parse_fragment ls1 = Ok p1 -> parse_fragment ls2 = Ok p2 ->
     is_cont_line bad = false -> frag_step frag_empty bad = Ok (mkFrag [] [] [e]) ->
-    self_contained ls2 = true ->
     parse_fragment (ls1 ++ bad :: ls2) =
     Ok (mkFrag (f_stats p1 ++ f_stats p2) (f_lines p1 ++ f_lines p2) (f_errs p1 ++ e :: f_errs p2)).
-Proof. exact line_isolation. Qed.
+Proof. exact line_isolation_fx. Qed.
 Print Assumptions C16_line_isolation.
 
-(* the executable form used by the check (leg c16.fragment): outside the class below, ParseCommentFragment
-   = every unit (a line + its continuation lines) read on its own, Stats and Lines aligned *)
-Theorem C16_fragment_spec_agrees :
-  forall ls, frag_cont_after_bad ls = false -> parse_fragment ls = parse_fragment_spec ls.
-Proof. exact fragment_spec_agrees. Qed.
-Print Assumptions C16_fragment_spec_agrees.
-
+(* the executable form used by the check (leg c16.fragment), the full statement: ParseCommentFragment = every unit
+   (a line + its continuation lines) read on its own, Stats and Lines aligned -- for ALL lists of lines *)
 Definition C16_fragment_spec_full : Prop := forall ls, parse_fragment ls = parse_fragment_spec ls.
 
-(* class cont_after_bad: the continuation line after a malformed alias line is appended to the PREVIOUS alias *)
-Theorem C16_cont_after_bad_refuted :
-  exists ls, frag_cont_after_bad ls = true /\ parse_fragment ls <> parse_fragment_spec ls.
-Proof.
-  exists [(1, bs "-@alias A string"); (2, bs "-@alias B ?"); (3, bs "-| 'x'")].
-  split; [vm_compute; reflexivity|]. vm_compute. discriminate.
-Qed.
-Print Assumptions C16_cont_after_bad_refuted.
+Theorem C16_fragment_spec_full_proved : C16_fragment_spec_full.
+Proof. exact fragment_spec_full. Qed.
+Print Assumptions C16_fragment_spec_full_proved.
 
-Theorem C16_fragment_spec_full_refuted : ~ C16_fragment_spec_full.
-Proof.
-  intros H. specialize (H [(1, bs "-@alias A string"); (2, bs "-@alias B ?"); (3, bs "-| 'x'")]).
-  vm_compute in H. discriminate H.
-Qed.
-Print Assumptions C16_fragment_spec_full_refuted.
+(* the repair changes nothing outside the class of the finding *)
+Theorem C16_cont_repair_conservative :
+  forall ls, frag_cont_after_bad ls = false -> parse_fragment ls = parse_fragment_gen false ls.
+Proof. exact repair_conservative. Qed.
+Print Assumptions C16_cont_repair_conservative.
+
+(* regression: the witness of the repaired finding C16-cont-after-bad (before the repair the constant 'x' of line 3
+   was appended to alias A of line 1) *)
+Example C16_cont_after_bad_witness :
+  let ls := [(1, bs "-@alias A string"); (2, bs "-@alias B ?"); (3, bs "-| 'x'")] in
+  frag_cont_after_bad ls = true /\
+  parse_fragment ls = parse_fragment_spec ls /\
+  (exists e, parse_fragment ls
+             = Ok (mkFrag [SAlias (bs "A") (Some (AMulti [ANormal (bs "string") true])) []] [1] [e])) /\
+  (exists e, parse_fragment_gen false ls
+             = Ok (mkFrag [SAlias (bs "A") (Some (AMulti [ANormal (bs "string") true; AConst (bs "x") false []])) []]
+                          [1] [e])).
+Proof. repeat split; try (eexists; vm_compute; reflexivity); vm_compute; reflexivity. Qed.
 
 (* Lines[i] is the line of Stats[i], for ALL inputs (repaired: clearEmpytAlias removes the line together with the
    statement): the two slices have the same length ... *)
@@ -165,10 +179,10 @@ Print Assumptions C16_alias_lines_aligned.
 (* ... and they are exactly the (statement, line) pairs collected while the lines were read, minus the aliases
    that never got a type *)
 Theorem C16_alias_lines_pairs :
-  forall ls, exists fr0,
-    frag_loop frag_empty ls = Ok fr0 /\ length (f_stats fr0) = length (f_lines fr0) /\
+  forall ls, exists fr0 b,
+    frag_loop_fx (frag_empty, false) ls = Ok (fr0, b) /\ length (f_stats fr0) = length (f_lines fr0) /\
     parse_fragment ls = Ok (clear_aligned fr0).
-Proof. exact fragment_pairs. Qed.
+Proof. exact fragment_pairs_fx. Qed.
 Print Assumptions C16_alias_lines_pairs.
 
 (* regression: the witness of the repaired finding C16-alias-lines (was Stats = [type], Lines = [1; 2]) *)
@@ -181,22 +195,47 @@ Example C16_alias_lines_witness :
 Proof. repeat split; vm_compute; reflexivity. Qed.
 
 (* ================================================================== the implementation printer *)
+(* `type_convert_str` = TypeConvertStr of the code as it is = `type_convert_str_fx deployed`: string constants are
+   printed with their quotes and a union directly inside a union keeps its parentheses (repaired); fun types are
+   still printed `function(...)` (finding C16-printer-fun: its repair changes a text that two tests of the
+   existing suite assert).  `type_convert_str_fx all_fixes` is the printer with that repair too. *)
 
 Definition C16_impl_printer_full : Prop :=
   forall a, doc_type (abs a) = true ->
     exists a', parse_type (fuel_of (type_convert_str a)) (type_convert_str a) = Ok (inl (a', [])) /\ abs a' = abs a.
 
-(* proved part: no fun type, no string constant, no union directly in a union
-   (repaired: array items that are unions or arrays keep their parentheses, so they are inside the proved part) *)
+(* proved part for the code as it is: every documented type without a fun type
+   (repaired: string constants, unions directly inside unions; earlier: array items that are unions or arrays) *)
 Theorem C16_impl_printer_partial :
-  forall a, printer_guard a = true ->
+  forall a, doc_type (abs a) = true -> has_fun (abs a) = false ->
     exists a', parse_type (fuel_of (type_convert_str a)) (type_convert_str a) = Ok (inl (a', [])) /\ abs a' = abs a.
 Proof. exact impl_printer_partial. Qed.
 Print Assumptions C16_impl_printer_partial.
 
+(* the full statement holds for the printer with the prepared repair of the fun types (fixes/C16-printer-fun.diff):
+   print, then read = the same documented type, for EVERY documented type *)
+Theorem C16_impl_printer_full_all_fixes :
+  forall a, doc_type (abs a) = true ->
+    exists a', parse_type (fuel_of (type_convert_str_fx all_fixes a)) (type_convert_str_fx all_fixes a)
+               = Ok (inl (a', [])) /\ abs a' = abs a.
+Proof. exact impl_printer_full_all_fixes. Qed.
+Print Assumptions C16_impl_printer_full_all_fixes.
+
+(* ... and for any set of repairs, under the guard of the missing ones (fun types / string constants / a union
+   directly in a union); the printed text is the canonical text of the documented type *)
+Theorem C16_impl_printer_any_fixes :
+  forall fx a, pguard fx (abs a) = true ->
+    type_convert_str_fx fx a = show_type (abs a) /\
+    exists a', parse_type (fuel_of (type_convert_str_fx fx a)) (type_convert_str_fx fx a) = Ok (inl (a', [])) /\
+               abs a' = abs a.
+Proof.
+  exact (fun fx a Hg => conj (tcs_show fx (asize a) a (le_n _) (pguard_G fx _ Hg)) (impl_printer_fx fx a Hg)).
+Qed.
+Print Assumptions C16_impl_printer_any_fixes.
+
 (* the same through ParseCommentFragment (what leg c16.print observes) *)
 Theorem C16_impl_printer_line :
-  forall a lno, printer_guard a = true ->
+  forall a lno, doc_type (abs a) = true -> has_fun (abs a) = false ->
     parse_fragment [(lno, (s_head ++ k_type ++ type_convert_str a)%list)]
     = Ok (mkFrag [SType [(false, false, embed_type (abs a))] []] [lno] []).
 Proof. exact printer_fragment. Qed.
@@ -213,7 +252,31 @@ Example C16_printer_union_witness :
   parse_type (fuel_of (type_convert_str b)) (type_convert_str b) = Ok (inl (b, [])).
 Proof. repeat split; vm_compute; reflexivity. Qed.
 
-(* fun types are printed as `function(...)`, which reads back as the name `function` + a comment *)
+(* regression: the witnesses of the repaired finding C16-printer-const: '"r"' (was printed "r": QuotesFlag lost on
+   reading) and "abc" (was printed abc: read again as a type name) *)
+Example C16_printer_const_witness :
+  let a := AMulti [AConst (bs "r") true []] in
+  let b := AMulti [AConst (bs "abc") false []] in
+  has_const (abs a) = true /\ printer_guard a = true /\
+  type_convert_str a = [39; 34; 114; 34; 39] /\ type_convert_str_fx no_fixes a = [34; 114; 34] /\
+  parse_type (fuel_of (type_convert_str a)) (type_convert_str a) = Ok (inl (a, [])) /\
+  parse_type (fuel_of (bs "abc")) (bs "abc") = Ok (inl (AMulti [ANormal (bs "abc") true], [])) /\
+  type_convert_str b = bs "'abc'" /\ type_convert_str_fx no_fixes b = bs "abc" /\
+  parse_type (fuel_of (type_convert_str b)) (type_convert_str b) = Ok (inl (b, [])).
+Proof. repeat split; vm_compute; reflexivity. Qed.
+
+(* regression: a union directly inside a union, `(a | b) | c` (was printed flat, `a | b | c`, and read back as a
+   union of three; repaired together with the constants, fixes/C16-printer-nested-union.diff) *)
+Example C16_printer_nested_union_witness :
+  let a := AMulti [AMulti [ANormal (bs "a") true; ANormal (bs "b") true]; ANormal (bs "c") true] in
+  has_union_in_union (abs a) = true /\ printer_guard a = true /\
+  type_convert_str a = bs "(a | b) | c" /\ type_convert_str_fx no_fixes a = bs "a | b | c" /\
+  parse_type (fuel_of (type_convert_str a)) (type_convert_str a) = Ok (inl (a, [])) /\
+  parse_type (fuel_of (bs "a | b | c")) (bs "a | b | c")
+  = Ok (inl (AMulti [ANormal (bs "a") true; ANormal (bs "b") true; ANormal (bs "c") true], [])).
+Proof. repeat split; vm_compute; reflexivity. Qed.
+
+(* OPEN: fun types are printed as `function(...)`, which reads back as the name `function` + a comment *)
 Theorem C16_printer_fun_refuted :
   exists a, doc_type (abs a) = true /\ has_fun (abs a) = true /\
             type_convert_str a = bs "function(a: string): number" /\
@@ -225,23 +288,26 @@ Proof.
 Qed.
 Print Assumptions C16_printer_fun_refuted.
 
-(* string constants: '"r"' prints "r" (QuotesFlag lost on reading); "abc" prints abc (a type name) *)
-Theorem C16_printer_const_refuted :
-  exists a, doc_type (abs a) = true /\ has_const (abs a) = true /\
-            exists a', parse_type (fuel_of (type_convert_str a)) (type_convert_str a) = Ok (inl (a', [])) /\
-                       abs a' <> abs a.
-Proof.
-  exists (AMulti [AConst (bs "r") true []]). split; [reflexivity|]. split; [reflexivity|].
-  eexists. split; [vm_compute; reflexivity|]. vm_compute. discriminate.
-Qed.
-Print Assumptions C16_printer_const_refuted.
-
 Theorem C16_impl_printer_full_refuted : ~ C16_impl_printer_full.
 Proof.
-  intros H. destruct (H (AMulti [AConst (bs "r") true []]) eq_refl) as (a' & H1 & H2).
-  vm_compute in H1. injection H1 as <-. vm_compute in H2. discriminate H2.
+  intros H.
+  destruct (H (AMulti [AFun [(bs "a", false, AMulti [ANormal (bs "string") true])] [AMulti [ANormal (bs "number") true]]])
+              eq_refl) as (a' & H1 & H2).
+  vm_compute in H1. discriminate H1.
 Qed.
 Print Assumptions C16_impl_printer_full_refuted.
+
+(* the same witness with the prepared repair: printed in the annotation syntax, read back as itself; a fun type
+   with an optional parameter, a parameter without a type and a fun type among its return types *)
+Example C16_printer_fun_all_fixes_witness :
+  let a := AMulti [AFun [(bs "a", false, AMulti [ANormal (bs "string") true])] [AMulti [ANormal (bs "number") true]]] in
+  let b := AMulti [AFun [(bs "cb", true, AMulti [AMulti [AFun [] []]]); (bs "x", false, ANormal (bs "any") false)]
+                        [AMulti [AMulti [AFun [] [AMulti [ANormal (bs "r") true]]]]; AMulti [ANormal (bs "s") true]]] in
+  type_convert_str_fx all_fixes a = bs "fun(a: string): number" /\
+  parse_type (fuel_of (type_convert_str_fx all_fixes a)) (type_convert_str_fx all_fixes a) = Ok (inl (a, [])) /\
+  type_convert_str_fx all_fixes b = bs "fun(cb?: (fun()), x): (fun(): r), s" /\
+  parse_type (fuel_of (type_convert_str_fx all_fixes b)) (type_convert_str_fx all_fixes b) = Ok (inl (b, [])).
+Proof. repeat split; vm_compute; reflexivity. Qed.
 
 (* ================================================================== totality (cited by Properties/C01.v) *)
 
@@ -291,22 +357,37 @@ Example C16_doc_stat_inhabited :
 Proof. repeat split. Qed.
 
 Example C16_printer_guard_inhabited :
-  printer_guard (AMulti [ATable (AMulti [ANormal (bs "string") true])
-                                (AMulti [AArray (ANormal (bs "People") true)]);
-                         AArray (AMulti [ATableEmpty; AArray (AArray (ANormal (bs "a.b") true))]);
-                         AArray (AMulti [AArray (AMulti [ANormal (bs "x") true; ANormal (bs "y") true])]);
-                         ANormal (bs "...") true]) = true.
-Proof. reflexivity. Qed.
+  let a := AMulti [ATable (AMulti [ANormal (bs "string") true])
+                          (AMulti [AArray (ANormal (bs "People") true)]);
+                   AArray (AMulti [ATableEmpty; AArray (AArray (ANormal (bs "a.b") true))]);
+                   AArray (AMulti [AArray (AMulti [ANormal (bs "x") true; ANormal (bs "y") true])]);
+                   AMulti [AConst (bs "r") true (bs "read"); AConst (bs "w+") false []];
+                   ANormal (bs "...") true] in
+  doc_type (abs a) = true /\ has_fun (abs a) = false /\ printer_guard a = true /\
+  has_const (abs a) = true /\ has_union_in_union (abs a) = true /\ has_paren_item (abs a) = true.
+Proof. repeat split. Qed.
 
-Example C16_self_contained_inhabited :
-  self_contained [(4, bs "- plain comment"); (5, bs "-@alias M"); (6, bs "-| 'r' # read"); (7, bs "-| 'w'");
-                  (8, bs "-@type ?"); (9, bs "-@field x string @c")] = true /\
+Example C16_printer_all_fixes_guard_inhabited :
+  doc_type (abs (embed_type ex_type)) = true /\ has_fun (abs (embed_type ex_type)) = true /\
+  pguard all_fixes (abs (embed_type ex_type)) = true /\ pguard deployed (abs (embed_type ex_type)) = false.
+Proof. repeat split. Qed.
+
+(* the premise of C16_line_isolation: a line that yields exactly an error *)
+Example C16_bad_line_inhabited :
+  is_cont_line (3, bs "-@param ") = false /\
   frag_step frag_empty (3, bs "-@param ") =
   Ok (mkFrag [] [] [(3, 8%nat, mkErr 2 KEOF (bs "annotate warn : syntax error near 'EOF'") 0)]).
 Proof. split; vm_compute; reflexivity. Qed.
 
-Example C16_fragment_guard_inhabited :
-  let ls := [(1, bs "-@alias M"); (2, bs "-| 'r' # read"); (3, bs "-@type ?"); (4, bs "-@class A : B @c");
-             (5, bs "-@alias Empty @never typed"); (6, bs "-@enum end @c")] in
-  frag_cont_after_bad ls = false.
-Proof. vm_compute. reflexivity. Qed.
+(* a fragment with every kind of unit: continuation lines first, after an alias, after another statement, after a
+   malformed line, after a plain comment *)
+Example C16_fragment_units_inhabited :
+  let ls := [(1, bs "-| 'lost'"); (2, bs "-@alias M"); (3, bs "-| 'r' # read"); (4, bs "-@type ?"); (5, bs "-| 'x'");
+             (6, bs "-@class A : B @c"); (7, bs "-| 'y'"); (8, bs "- plain"); (9, bs "-| 'z'");
+             (10, bs "-@alias Empty @never typed"); (11, bs "-@enum end @c")] in
+  frag_cont_after_bad ls = true /\ length (units ls) = 7%nat /\
+  parse_fragment ls = parse_fragment_spec ls /\
+  (exists e, parse_fragment ls
+             = Ok (mkFrag [SAlias (bs "M") (Some (AMulti [AConst (bs "r") false (bs "read")])) [];
+                           SClass (bs "A") [bs "B"] (bs "c"); SEnum 2 (bs "c")] [2; 6; 11] [e])).
+Proof. repeat split; try (eexists; vm_compute; reflexivity); vm_compute; reflexivity. Qed.
